@@ -210,6 +210,10 @@ func (p *Program) localMods(sv *VC, f *ssa.Function, in ssa.Instruction, ms *Mod
 			return
 		}
 		if fn, ok := c.Value.(*ssa.Function); ok && !c.IsInvoke() && (fn.Pkg == nil || !isModulePkg(fn.Pkg.Pkg)) {
+			if fn.String() == "hash/fnv.New64a" {
+				sv.compDecl("Ghash_data", "(Array Int Str)")
+				note("Ghash_data", false)
+			}
 			es := externalSpec(fn)
 			if es.HavocArgs {
 				for _, a := range c.Args {
@@ -219,8 +223,9 @@ func (p *Program) localMods(sv *VC, f *ssa.Function, in ssa.Instruction, ms *Mod
 		}
 		if c.IsInvoke() {
 			it := c.Value.Type().Underlying().(*types.Interface)
-			if len(p.implementers(it, c.Method.Name())) == 0 {
-				// external interface method (error.Error, context.Done, hash.Write ...): receiver state is opaque
+			if len(p.implementers(it, c.Method.Name())) == 0 && types.TypeString(c.Value.Type(), nil) == "hash.Hash64" {
+				sv.compDecl("Ghash_data", "(Array Int Str)")
+				note("Ghash_data", false)
 			}
 		}
 		if _, ok := c.Value.(*ssa.Function); !ok && !c.IsInvoke() {
@@ -488,6 +493,10 @@ func freshSlice(v ssa.Value, seen map[ssa.Value]bool) bool {
 	case *ssa.Call:
 		if b, ok := x.Call.Value.(*ssa.Builtin); ok && b.Name() == "append" {
 			return freshSlice(x.Call.Args[0], seen)
+		}
+		// slices returned by pure standard-library functions (strings.Split ...) are newly allocated
+		if fn, ok := x.Call.Value.(*ssa.Function); ok && fn.Pkg != nil && purePkgs[fn.Pkg.Pkg.Path()] && fn.Signature.Recv() == nil {
+			return true
 		}
 		return false
 	case *ssa.Convert:
